@@ -27,6 +27,15 @@ impl Driven for D {
          _ => panic!("verif harness: unknown relation {}", rel),
       }
    }
+   fn clear(&mut self, rel: &str) {
+      match rel {
+         "e_rn" => { self.0.e_rn = Default::default(); },
+         "lp_rn" => { self.0.lp_rn = Default::default(); },
+         "sym_rn" => { self.0.sym_rn = Default::default(); },
+         "tri_rn" => { self.0.tri_rn = Default::default(); },
+         _ => panic!("verif harness: unknown relation {}", rel),
+      }
+   }
    fn run(&mut self) { self.0.run(); }
    fn dump(&self) -> Value {
       let mut m: Vec<(String, Value)> = vec![];
